@@ -6,10 +6,19 @@ package storeh
 import (
 	"encoding/json"
 	"sort"
+	"strings"
 
 	"github.com/hashicorp/consul/agent/consul/state"
 	"github.com/hashicorp/consul/agent/structs"
 )
+
+// ipTail drops the first octet of a dotted IPv4 address (the virtual IP range offset)
+func ipTail(ip string) string {
+	if i := strings.IndexByte(ip, '.'); i >= 0 {
+		return ip[i+1:]
+	}
+	return ip
+}
 
 func (h *H) ProjectCatalog() M {
 	s := h.Store()
@@ -32,7 +41,18 @@ func (h *H) ProjectCatalog() M {
 			if a, ok := x.ServiceTaggedAddresses[structs.TaggedAddressVirtualIP]; ok {
 				vip = a.Address
 			}
-			svcs = append(svcs, M{"node": x.Node, "id": x.ServiceID, "name": x.ServiceName, "kind": string(x.ServiceKind), "peer": x.PeerName,
+			// every virtual IP the instance advertises: its own ("consul-virtual") and, for terminating gateways, one
+			// per linked service ("consul-virtual:<service>"); addresses carry the 240.0.0.0 offset, table rows do not
+			adv := []M{}
+			for k, a := range x.ServiceTaggedAddresses {
+				if k == structs.TaggedAddressVirtualIP {
+					adv = append(adv, M{"svc": "", "ip": ipTail(a.Address)})
+				} else if strings.HasPrefix(k, structs.TaggedAddressVirtualIP+":") {
+					adv = append(adv, M{"svc": strings.TrimPrefix(k, structs.TaggedAddressVirtualIP+":"), "ip": ipTail(a.Address)})
+				}
+			}
+			sortM(adv, "svc")
+			svcs = append(svcs, M{"adv": adv, "node": x.Node, "id": x.ServiceID, "name": x.ServiceName, "kind": string(x.ServiceKind), "peer": x.PeerName,
 				"dest": x.ServiceProxy.DestinationServiceName, "native": x.ServiceConnect.Native, "ups": ups, "vip": vip})
 		case "checks":
 			x := item.(*structs.HealthCheck)
@@ -65,7 +85,7 @@ func (h *H) ProjectCatalog() M {
 			usage[u.ID] = u.Count
 		case "service-virtual-ips":
 			v := item.(state.ServiceVirtualIP)
-			vips = append(vips, M{"name": v.Service.ServiceName.Name, "peer": v.Service.Peer, "ip": v.IP.String()})
+			vips = append(vips, M{"name": v.Service.ServiceName.Name, "peer": v.Service.Peer, "ip": v.IP.String(), "tail": ipTail(v.IP.String())})
 		case "free-virtual-ips":
 			v := item.(state.FreeVirtualIP)
 			if !v.IsCounter {
